@@ -1,7 +1,7 @@
 SPECIFICATION ASpec
 CONSTANTS
   Principals = {"A", "B", "M"}
-  Cmds <- A_Cmds
+  Cmds <- @Cmds@
   PolDom <- A_Pols
   MaxStore = @MaxStore@
   InvDom <- A_Inv
